@@ -102,11 +102,29 @@ def h_outbound_limit(shapes):
             note('refused')
             check(s_lt(L, k + 1), 'opening-refused-below-limit', (k, L))
             check(out.nbytes() == 0, 'refused-opening-emits', None)
+            _retry(ctx, lambda: ctx.me.send_headers(nxt, h2h.REQ), k, out)
         else:
             note('opened')
             check(s_le(k + 1, L), 'opened-beyond-peer-limit', (k, L))
-        check(ctx.me.open_outbound_streams <= L or True, 'x', None)
+            check(ctx.me.open_outbound_streams == k + 1, 'open_outbound_streams-after-opening',
+                  None)
     return h
+
+
+def _retry(ctx, call, k, out):
+    """a refused opening contributes nothing: the same call made again (limit unchanged)
+    is refused again, and the number of open streams has not moved"""
+    try:
+        call()
+    except h2.exceptions.TooManyStreamsError:
+        pass
+    except h2.exceptions.ProtocolError as e:
+        check(False, 'retry-after-refused-opening:%s' % type(e).__name__, None)
+    else:
+        check(False, 'retry-after-refused-opening-exceeds-limit', None)
+    check(out.nbytes() == 0, 'refused-opening-emits', None)
+    check(ctx.me.open_outbound_streams == k, 'refused-opening-counted',
+          (ctx.me.open_outbound_streams, k))
 
 
 def h_outbound_unlimited():
@@ -174,6 +192,7 @@ def h_push_limit(npush, answered):
                 note('refused')
                 check(s_lt(L, k + 1), 'opening-refused-below-limit', (k, L))
                 check(out.nbytes() == 0, 'refused-opening-emits', None)
+                _retry(ctx, lambda: ctx.me.send_headers(sid, h2h.RESP), k, out)
             else:
                 note('opened')
                 check(s_le(k + 1, L), 'pushed-stream-opened-beyond-peer-limit', (k, L))
